@@ -846,7 +846,12 @@ def run_sched_suite(driver, rng: random.Random, n_scenarios: int, n_schedules: i
                 dis.append({"suite": name, "scenario": sc, "schedule_seed": sseed, **detail})
             elif len(samples) < 3 and detail.get("actions", 0) > 6:
                 samples.append({"scenario": sc, "schedule_seed": sseed, "actions": detail["actions"], "outcome": outcome})
-            if monitor is not None:
+            never_started = str(outcome).startswith("failed AssertionError closure") or str(outcome).startswith("failed Hang")
+            if never_started and not getattr(monitor, "judges_closure", False):
+                # the min-delay closures failed before the first step (finding D7, judged under C05 / C06): the run never
+                # started, so no other property has anything to say about it
+                hist["outcome:closure failure (not judged here)"] += 1
+            elif monitor is not None:
                 real_outcome = getattr(c, "final_outcome", None) or outcome
                 for v in monitor(sc, c, str(impl_outcome(c, detail, outcome))):
                     mon_evals += 1
